@@ -7,7 +7,7 @@ ID = "C07"
 LEVEL = "exploration"
 RULE = ("random arrays (1-4 dims, int/float data, label kinds int/float/str in any order) x axis (by name / position) x new label sequence "
         "{subset, superset, disjoint, permuted, repeated, empty, own labels, other numeric kind} given as {list, ndarray, Axis} x fill "
-        "{NaN, int, float} x raise_error x method {None,left,right}; reindex_like over templates sharing 0-3 dims. class = (kind, order, "
+        "{NaN, int, float} x raise_error x method {None,left,right}; reindex_like over templates sharing 0-3 dims; narrow data with same-kind fill values the type cannot hold. class = (kind, order, "
         "mode, form, fill kind, data kind, raise_error, method, ndim, axis position); trivial = none")
 ANCHORS = ["align.reindex_axis", "align.reindex_like", "indexing.locate_many", "dimarraycls.take_axis"]
 # entry points the workload calls itself; the other anchors are helpers behind them (counted as evidence only)
